@@ -12,6 +12,7 @@ mod idl;
 mod jsonser;
 mod notified;
 mod server;
+mod session;
 mod transport;
 mod targets;
 mod util;
@@ -181,6 +182,32 @@ fn main() {
             }
             let lines = util::log_close();
             util::write_json(&summary, &json!({"cases": stats.cases, "events": lines}));
+        }
+        "session" => {
+            let mut r = Rng::new(seed ^ 0x5e55);
+            let mut scenarios: Vec<session::Scenario> = Vec::new();
+            if let Some(p) = arg_val(&args, "--replay") {
+                for v in read_lines(&p) {
+                    scenarios.push(serde_json::from_value(v).expect("scenario"));
+                }
+            } else {
+                for i in 0..n {
+                    let mut rr = r.fork();
+                    scenarios.push(session::gen(&mut rr, format!("e{seed}-{i}")));
+                }
+            }
+            util::log_open(&out);
+            let mut stats = session::Stats { scenarios: 0, calls: 0, stuck: 0 };
+            let mut dumpw = arg_val(&args, "--dump-scenarios").map(|p| std::io::BufWriter::new(std::fs::File::create(p).unwrap()));
+            for sc in &scenarios {
+                if let Some(w) = dumpw.as_mut() {
+                    use std::io::Write;
+                    writeln!(w, "{}", serde_json::to_string(sc).unwrap()).unwrap();
+                }
+                session::run(sc, &mut stats);
+            }
+            let lines = util::log_close();
+            util::write_json(&summary, &json!({"scenarios": stats.scenarios, "calls": stats.calls, "stuck": stats.stuck, "events": lines}));
         }
         "idl-rerender" => {
             // diagnostic: parse a text with zlink and print its rendering
